@@ -132,6 +132,9 @@ func genC17(rng *rand.Rand, tier string) *sim.Plan {
 			for i := 0; i < rng.IntN(4); i++ {
 				msg++
 				op := sim.Op{K: "publish", C: nc[n].pub, Topic: pick(rng, c17topics), QoS: byte(rng.IntN(2)), Payload: fmt.Sprintf("p%d", msg)}
+				if p.Clients[nc[n].pub].Ver == 5 && chance(rng, 0.1) {
+					op.Payload, op.QoS = "rej-"+op.Payload, 1 // refused by the OnMsgArrived hook of the node: goes nowhere
+				}
 				if p.Clients[nc[n].pub].Ver == 5 && chance(rng, 0.4) {
 					randMsgProps(rng, &op) // "exactly as a local subscriber would": the forwarded copy keeps its properties
 					if !binaryCorr && !utf8.Valid(op.Corr) {
@@ -285,6 +288,21 @@ func oracleC17(p *sim.Plan, out *sim.Outcome) []sim.Violation {
 				delete(subs[o.Op.C], f)
 			}
 		case "publish":
+			if strings.HasPrefix(o.Op.Payload, "rej-") {
+				// refused by the node's OnMsgArrived hook: delivered to nobody, forwarded to no peer, not retained anywhere
+				for c, m := range received {
+					if m[o.Op.Payload+"|"+o.Op.Topic] > 0 {
+						vs = append(vs, viol("C17", "deliver", "refused-delivered", "message %q, refused by the OnMsgArrived hook of %s, reached %s", o.Op.Payload, fedNode(nodeOf[o.Op.C]), p.Clients[c].ID))
+					}
+				}
+				for _, e := range events {
+					if m := e.Ev.GetMessage(); m != nil && string(m.Payload) == o.Op.Payload {
+						vs = append(vs, viol("C17", "forward", "refused-forwarded", "message %q, refused by the OnMsgArrived hook of %s, was forwarded to %s", o.Op.Payload, e.F.From, e.F.To))
+						break
+					}
+				}
+				continue
+			}
 			if o.Result != "ok" && o.Result != "" || o.Inv < 0 {
 				continue
 			}
